@@ -919,8 +919,9 @@ class TreeTransform(Generic[TreeFnT]):
         continue
       non_dict_keys, dict_keys = mit.partition(_is_dict, fn.output_keys)
       # Aggregate and Assign/Apply Ops are separated into different transforms.
-      # The base TreeFn means this is an Apply Op.
-      if type(fn) is tree_fns.TreeFn:  # pylint: disable=unidiomatic-typecheck
+      # The base TreeFn means this is an Apply Op; like it, a Select replaces
+      # its inputs with its outputs.
+      if type(fn) in (tree_fns.TreeFn, tree_fns.Select):
         result = set()
       result.update(itertools.chain(non_dict_keys, *dict_keys))
     # An output assigned to SKIP is dropped, it is not a key of the outputs.
